@@ -464,4 +464,26 @@ theorem noOverlap_fallback_only (cfg : Cfg) (d : Str) (hd : cfg.dirs = [d])
     have := outputFilepath_fallback_inj cfg d hd hcwd hext m m' (hclean m (by simp)) (hclean m' (by simp [hm'])) heq
     exact hnd.1 (this ▸ hm')
 
+/-! ### absolute paths stay absolute -/
+
+theorem startsWith_slash_iff (p : Str) : startsWith p ['/'] = true ↔ ∃ t, p = '/' :: t := by
+  cases p with
+  | nil => simp [startsWith]
+  | cons c cs => simp [startsWith]
+
+theorem normpath_absolute (p : Str) (h : startsWith p ['/'] = true) : startsWith (normpath p) ['/'] = true := by
+  obtain ⟨t, rfl⟩ := (startsWith_slash_iff _).mp h
+  unfold normpath
+  simp only [List.cons_ne_nil, ↓reduceIte]
+  have hn : ∃ k, initialSlashes ('/' :: t) = k + 1 := by
+    unfold initialSlashes
+    simp only [h, ↓reduceIte]
+    split
+    · exact ⟨1, rfl⟩
+    · exact ⟨0, rfl⟩
+  obtain ⟨k, hk⟩ := hn
+  simp only [hk, List.replicate_succ, List.cons_append, List.cons_ne_nil, ↓reduceIte]
+  simp [startsWith]
+
+
 end Tranp.Runner
